@@ -34,6 +34,7 @@ import (
 	"encoding/json"
 	"fmt"
 	"io"
+	"math"
 	"math/rand"
 	"net"
 	"os"
@@ -242,6 +243,7 @@ type vfeObs struct {
 	Ad   [][]int `json:"ad"`
 	Conn []int   `json:"conn"`
 	Kept []int   `json:"kept"`
+	Off  int     `json:"off"` // ChainService.timeSource.Offset() in whole hours
 }
 
 type vfeStepIn struct {
@@ -287,6 +289,7 @@ type vfeEnv struct {
 	ips   []net.IP
 	ports [][]int
 	rng   *rand.Rand
+	off   int // hours the clocks of the peers (and so the client's adjusted clock) are off by
 
 	mu       sync.Mutex
 	slots    []*vfeConn
@@ -316,7 +319,7 @@ func (e *vfeEnv) dial(a net.Addr) (net.Conn, error) {
 	return c, nil
 }
 
-func vfeStart(dir string, np, ni, nj int, rng *rand.Rand) (*vfeEnv, error) {
+func vfeStart(dir string, np, ni, nj, off int, rng *rand.Rand) (*vfeEnv, error) {
 	db, err := walletdb.Create("bdb", filepath.Join(dir, "neutrino.db"), true, 10*time.Second, false)
 	if err != nil {
 		return nil, err
@@ -327,7 +330,7 @@ func vfeStart(dir string, np, ni, nj int, rng *rand.Rand) (*vfeEnv, error) {
 		return nil, err
 	}
 	hold := &vfeHoldStore{Store: store}
-	e := &vfeEnv{db: db, np: np, rng: rng, slots: make([]*vfeConn, np), hold: hold}
+	e := &vfeEnv{db: db, np: np, rng: rng, off: off, slots: make([]*vfeConn, np), hold: hold}
 	seen := map[string]bool{}
 	for len(e.ips) < ni {
 		var ip net.IP
@@ -455,6 +458,21 @@ func vfeStart(dir string, np, ni, nj int, rng *rand.Rand) (*vfeEnv, error) {
 	}()
 	e.inner = inner
 	e.s = s
+	if off != 0 {
+		// Before the history starts, peers whose clocks are off by `off` hours
+		// have completed their handshakes: what ServerPeer.OnVersion does with
+		// every version message is timeSource.AddTimeSample(addr, msg.Timestamp).
+		// btcd's median time source applies the median of its samples once it
+		// has >= 5 (and an odd number) of them; 21-29 samples from distinct
+		// addresses here, so that the <= 8 peers of a history cannot move the
+		// median.
+		n := 21 + 2*rng.Intn(5)
+		for k := 0; k < n; k++ {
+			src := fmt.Sprintf("198.51.%d.%d:%d", rng.Intn(256), k+1, 1024+rng.Intn(60000))
+			jitter := time.Duration(rng.Intn(240)-120) * time.Second
+			s.timeSource.AddTimeSample(src, time.Now().Add(time.Duration(off)*time.Hour+jitter))
+		}
+	}
 	return e, nil
 }
 
@@ -556,6 +574,7 @@ func (e *vfeEnv) observe() vfeObs {
 		}
 		o.Ban = append(o.Ban, []int{b, r})
 	}
+	o.Off = int(math.Round(e.s.timeSource.Offset().Hours()))
 	kept := e.keptSlots()
 	for p := 1; p <= e.np; p++ {
 		c := e.conn(p)
@@ -685,6 +704,8 @@ func (e *vfeEnv) exec(a vfeAct) (out vfeAct, conc string) {
 		mv := wire.NewMsgVersion(me, you, e.rng.Uint64()|1<<63, 0)
 		mv.Services = sv
 		mv.ProtocolVersion = int32(wire.ProtocolVersion)
+		// the peer's own clock (OnVersion hands it to the time source)
+		mv.Timestamp = time.Unix(time.Now().Add(time.Duration(e.off)*time.Hour).Unix()+int64(e.rng.Intn(120)-60), 0)
 		conc = fmt.Sprintf("services=%v", sv)
 		c.fedVersion = true
 		c.feed(e.message(mv))
@@ -791,6 +812,22 @@ func (e *vfeEnv) exec(a vfeAct) (out vfeAct, conc string) {
 		} else {
 			out.Res = "ok"
 		}
+	case "StoreBan":
+		// a record in the persistent ban store that no BanPeer call of this
+		// history wrote: lapsed half an hour ago / half an hour left / a day left
+		d := map[int]time.Duration{1: -30 * time.Minute, 2: 30 * time.Minute, 3: 24 * time.Hour}[a.F]
+		d += time.Duration(e.rng.Intn(240)-120) * time.Second
+		addr := e.addr(a.I, 1+e.rng.Intn(len(e.ports[a.I-1]))).String()
+		conc = fmt.Sprintf("%s for %v", addr, d)
+		n, err := banman.ParseIPNet(addr, nil)
+		if err == nil {
+			err = e.s.banStore.BanIPNet(n, banman.Reason(a.K), d)
+		}
+		if err != nil {
+			out.Res = "err"
+		} else {
+			out.Res = "ok"
+		}
 	case "Drop":
 		c := e.conn(a.P)
 		if c == nil {
@@ -853,7 +890,7 @@ func vfeRunOnce(p vfePathIn, scratch string, seed int64) (out vfePathOut) {
 	if nj < 2 {
 		nj = 2
 	}
-	e, err := vfeStart(dir, len(p.InitObs.Conn), len(p.InitObs.Ban), nj, rng)
+	e, err := vfeStart(dir, len(p.InitObs.Conn), len(p.InitObs.Ban), nj, p.InitObs.Off, rng)
 	if err != nil {
 		out.Error = "start: " + err.Error()
 		return
@@ -988,6 +1025,11 @@ func TestVerifBanEnforceReplay(t *testing.T) {
 		scratch = t.TempDir()
 	}
 	seed, _ := strconv.ParseInt(os.Getenv("VERIF_SEED"), 10, 64)
+	if v, err := strconv.Atoi(os.Getenv("VERIF_BAN_MINUTES")); err == nil && v > 0 {
+		// neutrino.BanDuration is a package-level setting ("can be changed"):
+		// one value per driver process
+		BanDuration = time.Duration(v) * time.Minute
+	}
 	nw := 2 * runtime.NumCPU()
 	if v, err := strconv.Atoi(os.Getenv("VERIF_PAR")); err == nil && v > 0 {
 		nw = v
